@@ -3,6 +3,7 @@ package props
 import (
 	"fmt"
 	"go/constant"
+	"go/types"
 
 	"golang.org/x/tools/go/ssa"
 
@@ -17,7 +18,7 @@ import (
 func (x *Ctx) tableRules(r *core.Result, rs *core.RuleStat) {
 	names := x.tokenTypeNames()
 	// tokenTypes
-	if obj := x.W.Root.Types.Scope().Lookup("tokenTypes"); obj != nil {
+	if obj := x.varRole(x.W.Root, "tokenTypes"); obj != nil {
 		rs.Instances++
 		if t := core.ReadTable256(x.W.Root, obj); t != nil {
 			for i := 0; i < 256; i++ {
@@ -46,8 +47,17 @@ func (x *Ctx) boolTable(r *core.Result, rs *core.RuleStat, pkg interface{}, name
 		p = x.W.FP
 	}
 	obj := p.Types.Scope().Lookup(name)
-	if obj == nil {
-		r.Undecided(rs, p.Types.Name()+"."+name, "-", "table not found")
+	if _, isVar := obj.(*types.Var); !isVar {
+		// under another name? a [256]bool table with exactly this content
+		if o := x.boolTableByContent(p, want); o != nil {
+			rs.Instances++
+			rs.OK(256)
+			rs.Sample(fmt.Sprintf("%s.%s: the table with content %s", p.Types.Name(), o.Name(), desc))
+			return
+		}
+		// no such table: whatever tables the scanners do use are read entry by entry by the scanner interpreter (E2),
+		// so a wrong class of bytes shows up in the automaton comparisons
+		r.Notes = append(r.Notes, fmt.Sprintf("no [256]bool table with content %s in package %s (looked for %q); byte classes are judged where they are used", desc, p.Types.Name(), name))
 		return
 	}
 	rs.Instances++
@@ -205,7 +215,7 @@ func (x *Ctx) wrapperIdentity(r *core.Result, rs *core.RuleStat, outer, inner st
 			}
 		}
 	}
-	if call == nil || ret == nil || n != 2 || call.Call.StaticCallee() == nil || call.Call.StaticCallee().Name() != inner {
+	if call == nil || ret == nil || n != 2 || call.Call.StaticCallee() == nil || x.canon(call.Call.StaticCallee()) != inner {
 		r.Fail(rs, key, x.W.Pos(fn.Pos()), "wrapper is not a plain `return "+inner+"(…)`")
 		return
 	}
@@ -246,7 +256,7 @@ func (x *Ctx) exclusivity(r *core.Result, rs *core.RuleStat) {
 	// bytes per class according to the repository's own table (R13a proves the table right)
 	names := x.tokenTypeNames()
 	byClass := map[string]lts.ByteSet{}
-	if obj := x.W.Root.Types.Scope().Lookup("tokenTypes"); obj != nil {
+	if obj := x.varRole(x.W.Root, "tokenTypes"); obj != nil {
 		if t := core.ReadTable256(x.W.Root, obj); t != nil {
 			for i := 0; i < 256; i++ {
 				v, _ := constant.Int64Val(constant.ToInt(t[i]))
